@@ -80,6 +80,43 @@ def api_scenarios(R):
     bad = b"\0" * 0x2e0 + struct.pack("<I", 6) + b"".join(x.ljust(65, b"\0") for x in (b"Minix", b"n", b"r", b"v", b"m", b"d"))
     dumpgen.write_elf(p2, [dict(paddr=0x1e15000, filesz=4096, memsz=4096, voff=0xffffffff81e15000 - 0x1e15000, data=bad)], notes=note)
     lines += ["open 1 %s" % p2, "setstr addrxlat.ostype linux", "attr linux.uts.nodename"]
+    # VMCOREINFO look-ups by name (kdump_vmcoreinfo_symbol / _line): every shape of a name that misses -- unknown, empty,
+    # a leading / trailing / lone dot (the dictionary's own path separator and its "no fallback" mark), the name of a
+    # directory node, a key of the other table -- must fail with a message; the names that exist must succeed silently.
+    # The expectation is computed here from the VMCOREINFO text, independently of the library.
+    vrows = [("OSRELEASE", "4.4.156-test"), ("PAGESIZE", "4096"), ("SYMBOL(init_uts_ns)", "ffffffff81e152e0"),
+             ("SYMBOL(swapper_pg_dir)", "ffffffff81c0a000"), ("SYMBOL(_stext)", "ffffffff81000000"), ("NUMBER(phys_base)", "16777216"),
+             ("LENGTH(mem_section)", "2048"), ("CRASHTIME", "1538000000")]
+    vsyms = {k[7:-1]: int(v, 16) for k, v in vrows if k.startswith("SYMBOL(")}
+    vtxt = "".join("%s=%s\n" % kv for kv in vrows).encode()
+    pv = R.path("c16-vmci.elf")
+    dumpgen.write_elf(pv, [dict(paddr=0x1e15000, filesz=4096, memsz=4096, voff=0xffffffff81e15000 - 0x1e15000, data=uts)],
+                      notes=dumpgen.elf_note(b"VMCOREINFO", 0, vtxt))
+    def vnames():
+        known = list(vsyms) + [k for k, _ in vrows]
+        ident = lambda: "".join(rng.choice("abcdefghijklmnopqrstuvwxyz_") for _ in range(rng.randint(1, 12)))
+        out = ["", ".", "..", "SYMBOL", "NUMBER", "lines", "raw", "LENGTH", "no_such_symbol"]
+        for k in known:
+            out += [k, "." + k, k + ".", k[:-1], k + "x"]
+        for _ in range(12 if R.tier == "quick" else 200):
+            w = rng.choice([ident(), rng.choice(known)])
+            out.append(rng.choice(["", ".", "..", "x."]) + w + rng.choice(["", "", ".", "." + ident()]))
+        return out
+    vexp = {}
+    for ost in (None, "linux", "xen"):
+        lines.append("open 1 %s" % pv)
+        if ost:
+            lines.append("setstr addrxlat.ostype " + ost)
+        for nm in vnames():
+            hx = nm.encode().hex() or "-"
+            for op in ("vsym", "vline"):
+                want = None
+                if ost == "linux" and op == "vsym" and nm in vsyms:      # (the Xen table comes from the VMCOREINFO_XEN note, which this dump lacks)
+                    want = "vsym ok %d" % vsyms[nm]
+                elif ost == "linux" and op == "vline" and nm in dict(vrows):
+                    want = "vline ok %s." % dict(vrows)[nm].encode().hex()
+                vexp[len(lines)] = (op, nm, ost, want)
+                lines.append("%s %s" % (op, hx))
     # a file name that was set and removed again must not be used by the message of a later failing open
     lines += ["open 1 %s" % paths[0], "setfn /var/crash/2026-09-30/an-earlier-dump-file-name-long-enough-to-live-on-the-heap.dump", "setfn -",
               "reopen %s" % variants[2], "attr file.format", "setfn /x/second-name-of-this-context.dump", "reopen %s" % variants[3], "setfn -",
@@ -99,7 +136,25 @@ def api_scenarios(R):
         rc2, out2, err2 = R.run_harness(exe2, stdin_text="\n".join(l2) + "\n")
         lines += l2; obs += kdf.obs(out2); rc = rc or rc2; err += err2
     fail = None
+    for i, (op, nm, ost, want) in sorted(vexp.items()):
+        if i >= len(obs):
+            break
+        o = obs[i]
+        call = "kdump_vmcoreinfo_%s(ctx, %r) with addrxlat.ostype %s on an ELF dump whose VMCOREINFO is %r" % (
+            "symbol" if op == "vsym" else "line", nm, ost or "unset", vtxt.decode())
+        k0 = max(k for k in range(i + 1) if lines[k].startswith("open "))
+        rep = "\n".join(lines[k0:k0 + (2 if ost else 1)] + [lines[i]])
+        if " C16:" in o or "UNDOCUMENTED" in o:
+            fail = ("%s answered '%s' (%s)" % (call, o[:160], "the call failed and kdump_get_err() has no message" if "empty-message" in o else "monitor verdict"), rep)
+        elif want is not None and o != want:
+            fail = ("%s answered '%s', expected '%s'" % (call, o[:160], want), rep)
+        elif want is None and (" ok " in o or not o.startswith("%s nodata -" % op)):
+            fail = ("%s answered '%s'; the name is not in the table, expected status nodata with a message" % (call, o[:160]), rep)
+        if fail:
+            break
     for i, o in enumerate(obs):
+        if fail:
+            break
         if " C16:" in o or "UNDOCUMENTED" in o:
             # find the command that produced observation i
             fail = ("public call answered '%s'" % o[:200], "\n".join(lines[max(0, i - 3):i + 1]))
